@@ -24,8 +24,8 @@ def random_event(rng):
     elif op == "train":
         e["a"], e["x"] = rng.choice(KEYS), 2
         e["view"] = rng.choice(["all", "b0", "b01", "b12", "c0"])
-    elif op in ("deltrain", "write"):
-        e["view"] = "all"          # <view>.delete_trainables() is subject to known findings F18/F19
+    elif op == "write":
+        e["view"] = "all"
     elif op == "group":
         e["a"] = rng.choice(["g1", "g2"])
     elif op == "record":
